@@ -27,6 +27,7 @@
                                  region feature spanning the file, `core_location` texts read back to the bases of
                                  the `proto_core` features (also `regionFeatureOK`)
     write_succeeds_partial       (also `writable`) `write_to_genbank` does not raise
+    motif_locations_partial      one-part leader/tail texts are rewritten to the text of the moved part
     references_resolve_partial   the written feature a rewritten reference points at is the image of the
                                  original referent
   Left to the executable spec on the real output (correspondence): `Record.from_genbank` itself (executed, not
@@ -34,6 +35,7 @@
 -/
 import ASV.Proofs.RegionExtractRegion
 import ASV.Proofs.RegionAnnotations
+import ASV.Proofs.RegionExtractMotif
 namespace ASV.C12
 open ASV ASV.RegionExtract
 
@@ -118,7 +120,7 @@ def ShiftSameBases (rd : RegionData) (rec : BioRecord) (w : Written) : Prop :=
     non-empty parts inside the record; and, only for a region over the origin, where `offset_location` is at
     work: a feature running over the origin has one part on each side, or is shorter than the record with all
     parts on one strand (`oneStrand`: abutting pieces of different strands make `offset_location` raise); any
-    other feature has exons fitting into its hull and all parts on one strand.  Nothing else is assumed: any
+    other feature is not as long as the record and has all parts on one strand.  Nothing else is assumed: any
     number of exons, abutting exons in runs of any length (after the repair D58), both strands. -/
 theorem shift_same_bases_partial (rd : RegionData) (rec : BioRecord) (w : Written)
     (h : writeToGenbank rd rec = .ok w) (hwf : wfInput rd rec = true) : ShiftSameBases rd rec w :=
@@ -189,6 +191,22 @@ theorem extract_reloads_partial (rd : RegionData) (rec : BioRecord) (w : Written
   obtain ⟨h1, h2, h3, h4, h5⟩ := written_selfconsistent rd rec w h hwf hcons
   obtain ⟨htags, hspan, _⟩ := consistent_unpack rd rec hcons
   exact ⟨h1, h2, h3, h4, written_oneRegion rd rec w h hwf htags hspan hreg, h5⟩
+
+/-- Leader and tail locations of precursor peptides (`_adjust_motif`): a `leader_location` / `tail_location`
+    text naming one part is rewritten to the text of that part moved into file coordinates (behind the part of
+    the file that comes from before the origin, if the part lies after it); the new text reads back
+    (`location_from_string`) to the moved part, and the moved part covers the same bases.
+    Remaining: texts naming several parts (a leader or tail cut by an intron) — `build_location_from_others`
+    re-joins them; covered by the executable `motifLocsOk`. -/
+theorem motif_locations_partial (t : String) (p : Part) (rd : RegionData) (L : Int) (hL : 0 < L)
+    (ht : locFromString t = some (.simple p))
+    (hplain : rd.crossesOrigin = false → rd.start ≤ p.lo ∧ p.hi ≤ rd.end)
+    (hcross : rd.crossesOrigin = true → 0 < rd.end ∧ rd.end ≤ rd.start ∧ rd.start < L ∧
+      ((rd.start ≤ p.lo ∧ p.hi ≤ L) ∨ (0 ≤ p.lo ∧ p.hi ≤ rd.end ∧ p.lo < p.hi))) :
+    ∃ p', adjustMotifLoc t rd L = .ok (locToString (.simple p')) ∧
+      locFromString (locToString (.simple p')) = some (.simple p') ∧ SameBases L rd (.simple p) (.simple p') :=
+  ⟨_, adjustMotifLoc_single t p rd L ht, locFromString_locToString _ (by simp [Loc.parts]),
+    motif_single_sameBases p rd L hL hplain hcross⟩
 
 /-- The write does not raise: under `wfInput` every `offset_location` call of the extraction succeeds (features
     after the origin, features over the origin, core locations), and with every dictionary lookup of
